@@ -32,7 +32,7 @@ CASE_TIMEOUT = 60
 
 
 def budget(tier):
-    return 2000 if tier == "quick" else 100000
+    return 2000 if tier == "quick" else 40000
 
 
 def _pos(x, n):
